@@ -291,17 +291,15 @@ theorem specMatchList_nonEmpty {lits ps ds β} (h : specMatchList lits ps ds = s
 
 theorem Bindings.toBindings_toSubst {β : Bindings} (h : β.NonEmpty) :
     β.toSubst.toBindings = β := by
-  induction β with
-  | nil => rfl
-  | cons e β ih =>
-    obtain ⟨v, ms⟩ := e
-    have h1 : ms ≠ [] := h (v, ms) (by simp)
-    have h2 : Bindings.NonEmpty β := fun e he => h e (by simp [he])
-    have := ih h2
-    simp only [Subst.toBindings, Bindings.toSubst] at this ⊢
-    cases ms with
-    | nil => exact absurd rfl h1
-    | cons m ms => simp [this]
+  simp only [Subst.toBindings, Bindings.toSubst, List.map_map]
+  conv => rhs; rw [← List.map_id β]
+  apply List.map_congr_left
+  intro e he
+  have := h e he
+  obtain ⟨v, ms⟩ := e
+  cases ms with
+  | nil => exact absurd rfl this
+  | cons m ms => rfl
 
 theorem Subst.insert_fresh {σ : Subst} {v x} (h : v ∉ Subst.keys σ) :
     σ.insert v x = σ ++ [(v, x)] := by
@@ -333,8 +331,8 @@ theorem Subst.push?_pushed {A : Subst} {v m} (hv : v ∈ Subst.keys A) (hn : (Su
     by_cases hk : k = v
     · subst hk
       simp only [if_true, Option.some.injEq, List.cons.injEq, true_and]
-      symm
-      rw [List.map_eq_self_iff] -- entries with another key are unchanged
+      conv => lhs; rw [← List.map_id A]
+      apply List.map_congr_left -- entries with another key are unchanged
       intro e he
       have : e.1 ≠ k := by
         intro h; apply hn.1; rw [← h]; exact List.mem_map_of_mem (f := (·.1)) he
@@ -351,7 +349,7 @@ theorem Subst.push?_pushed {A : Subst} {v m} (hv : v ∈ Subst.keys A) (hn : (Su
 theorem Subst.push?_append {σ0 A : Subst} {v m} (h0 : v ∉ Subst.keys σ0) :
     (σ0 ++ A).push? v m = (A.push? v m).map (σ0 ++ ·) := by
   induction σ0 with
-  | nil => cases A.push? v m <;> rfl
+  | nil => cases h : A.push? v m <;> simp [h]
   | cons e σ0 ih =>
     obtain ⟨k, f, more⟩ := e
     simp only [Subst.keys_cons, List.mem_cons, not_or] at h0
@@ -388,6 +386,19 @@ theorem pushAll_append {τ σ0 A : Subst}
     · rw [Subst.keys_pushed]; exact hn
     · intro k hk; rw [Subst.keys_pushed] at hk; exact hdis k hk
 
+theorem Subst.collect_cons {v m r} {τ : Subst} {k} :
+    Subst.collect ((v, m, r) :: τ) k = if v = k then m :: Subst.collect τ k else Subst.collect τ k := by
+  simp only [Subst.collect, List.filterMap_cons]
+  by_cases h : v = k <;> simp [h]
+
+theorem Subst.collect_fresh {τ : Subst} {k} (h : k ∉ Subst.keys τ) : Subst.collect τ k = [] := by
+  induction τ with
+  | nil => rfl
+  | cons e τ ih =>
+    obtain ⟨v, m, r⟩ := e
+    simp only [Subst.keys_cons, List.mem_cons, not_or] at h
+    rw [Subst.collect_cons, if_neg (fun hv => h.1 hv.symm), ih h.2]
+
 theorem Subst.collect_toSubst {β : Bindings} (hs : β.Single) (hn : (β.map Prod.fst).Nodup) (k) :
     Subst.collect β.toSubst k = (β.lookup k).getD [] := by
   induction β with
@@ -398,25 +409,15 @@ theorem Subst.collect_toSubst {β : Bindings} (hs : β.Single) (hn : (β.map Pro
     simp only at hm; subst hm
     simp only [List.map_cons, List.nodup_cons] at hn
     have ih' := ih (fun e he => hs e (by simp [he])) hn.2
-    simp only [Bindings.toSubst, Subst.collect, List.map_cons, List.filterMap_cons,
-      List.lookup_cons] at ih' ⊢
+    have hts : Bindings.toSubst ((v, [m]) :: β) = (v, m, []) :: Bindings.toSubst β := rfl
+    rw [hts, Subst.collect_cons, List.lookup_cons]
     by_cases hk : v = k
     · subst hk
-      have : (v == v) = true := by simp
-      simp only [if_true, List.headD_cons, this]
-      -- no further entry for `v`
-      have hnone : List.filterMap (fun (e : String × Datum × List Datum) =>
-          if e.1 = v then some e.2.1 else none)
-          (List.map (fun (x : String × List Datum) => (x.1, x.2.headD (Datum.nil none), x.2.tail)) β) = [] := by
-        rw [List.filterMap_eq_nil_iff]
-        intro e he
-        simp only [List.mem_map] at he
-        obtain ⟨e', he', rfl⟩ := he
-        have : e'.1 ≠ v := fun h => hn.1 (h ▸ List.mem_map_of_mem (f := Prod.fst) he')
-        simp [this]
-      simp [hnone]
+      have h1 : (v == v) = true := by simp
+      rw [if_pos rfl, Subst.collect_fresh (by simpa using hn.1), h1]
+      rfl
     · have : (k == v) = false := by simp [beq_eq_false_iff_ne, Ne.symm hk]
-      simp only [hk, if_false, this]
+      rw [if_neg hk, this]
       exact ih'
 
 /-- **the push loop**: pushing the (single) matches of one more item extends every item sequence
@@ -428,16 +429,322 @@ theorem pushAll_toSubst {σ0 : Subst} {acc β' : Bindings}
     pushAll β'.toSubst (σ0 ++ acc.toSubst) = some (σ0 ++ (zipB acc β').toSubst) := by
   rw [pushAll_append]
   · simp only [Option.some.injEq, List.append_cancel_left_eq]
+    simp only [Subst.collect_toSubst hs hn']
     simp only [Bindings.toSubst, zipB, List.map_map]
     apply List.map_congr_left
     intro e he
     have hne' := hne e he
-    simp only [Function.comp, Subst.collect_toSubst hs hn']
-    cases hms : e.2 with
-    | nil => exact absurd hms hne'
-    | cons m ms => simp [Bindings.toSubst]
+    obtain ⟨k, ms⟩ := e
+    cases ms with
+    | nil => exact absurd rfl hne'
+    | cons m ms => rfl
   · simp [hkeys]
   · simpa [← hkeys] using hn'
   · simpa using hdis
+
+/-! ## The refinement: model matcher ⊑ declarative matcher -/
+
+/-- the model's result `r` agrees with the expected outcome `o` (`some σ'`: success with table
+`σ'`; `none`: failure, whatever the table), unless the fuel ran out -/
+def Agrees (r : Except SErr (Bool × Subst)) (o : Option Subst) : Prop :=
+  r = .error (.fuel, none) ∨
+    match o with
+    | some σ' => r = .ok (true, σ')
+    | none => ∃ σ', r = .ok (false, σ')
+
+theorem Agrees.fuel {o} : Agrees (.error (.fuel, none)) o := .inl rfl
+theorem Agrees.ofSome {σ'} : Agrees (.ok (true, σ')) (some σ') := .inr rfl
+theorem Agrees.ofNone {σ'} : Agrees (.ok (false, σ')) none := .inr ⟨σ', rfl⟩
+
+theorem Agrees.cases {r o} (h : Agrees r o) :
+    r = .error (.fuel, none) ∨ (∃ σ', o = some σ' ∧ r = .ok (true, σ')) ∨
+      (o = none ∧ ∃ σ', r = .ok (false, σ')) := by
+  rcases h with h | h
+  · exact .inl h
+  · cases o with
+    | some σ' => exact .inr (.inl ⟨σ', rfl, h⟩)
+    | none => exact .inr (.inr ⟨rfl, h⟩)
+
+theorem Datum.spine_atom {d : Datum} (h : d.isListy = false) : d.spine = ([], some d) := by
+  cases d <;> simp_all [Datum.isListy, Datum.spine]
+
+theorem nextMM_not_lit {lits p} (h : p.isLit lits = false) : nextMM lits p = some p := by
+  cases p <;> simp_all [nextMM, Pat.isLit]
+
+theorem specRun_cons_some {m : Datum → Option Bindings} {d ds β} (h : m d = some β) :
+    specRun m (some (d :: ds)) = (mapOpt m ds).map (fun βs => βs.foldl zipB β) := by
+  simp only [specRun, mapOpt, h]
+  cases mapOpt m ds <;> simp [combine]
+
+theorem specRun_cons_none {m : Datum → Option Bindings} {d ds} (h : m d = none) :
+    specRun m (some (d :: ds)) = none := by
+  simp [specRun, mapOpt, h]
+
+theorem match_spec_aux (lits : List String) : ∀ n,
+    (∀ p d σ, Pat.ok lits p = true → (p.vars lits).Nodup → (∀ v ∈ p.vars lits, v ∉ Subst.keys σ) →
+      Agrees (matchDatum n lits p d σ) ((specMatch lits p d).map (σ ++ ·.toSubst))) ∧
+    (∀ ps ds mm σ, Pat.okList lits ps = true → (Pat.varsList lits ps).Nodup →
+      (∀ v ∈ Pat.varsList lits ps, v ∉ Subst.keys σ) →
+      Agrees (matchStream n lits ps ds mm σ) ((specMatchList lits ps ds).map (σ ++ ·.toSubst))) ∧
+    (∀ q ds σ0 (acc : Bindings), Pat.ok lits q = true → q.ellFree = true → (q.vars lits).Nodup →
+      acc.map Prod.fst = q.vars lits → acc.NonEmpty → (∀ v ∈ q.vars lits, v ∉ Subst.keys σ0) →
+      Agrees (matchStream n lits [.ellipsis] ds (some q) (σ0 ++ acc.toSubst))
+        ((mapOpt (specMatch lits q) ds).map (fun βs => σ0 ++ (βs.foldl zipB acc).toSubst))) := by
+  intro n
+  induction n with
+  | zero => exact ⟨fun _ _ _ _ _ _ => by simp [Agrees], fun _ _ _ _ _ _ _ => by simp [Agrees],
+      fun _ _ _ _ _ _ _ _ _ _ => by simp [Agrees]⟩
+  | succ n ih =>
+    obtain ⟨ihD, ihS, ihR⟩ := ih
+    refine ⟨?_, ?_, ?_⟩
+    · -- matchDatum
+      intro p d σ hok hnd hdis
+      cases hl : p.isListy
+      · cases p <;> simp [Pat.isListy] at hl
+        · -- underscore
+          simp only [matchDatum_underscore, specMatch, Option.map_some, Bindings.toSubst_nil,
+            List.append_nil]
+          exact Agrees.ofSome
+        · simp [Pat.ok] at hok
+        · -- vector
+          rename_i ps
+          rw [matchDatum_vec]
+          cases d <;> simp only [specMatch, Option.map_none] <;> try exact Agrees.ofNone
+          exact ihS _ _ _ _ (by simpa [Pat.ok] using hok) (by simpa [Pat.vars] using hnd)
+            (by simpa [Pat.vars] using hdis)
+        · -- identifier
+          rename_i v
+          cases hv : lits.contains v
+          · rw [matchDatum_var hv, Subst.insert_fresh (hdis v (by simp only [Pat.vars, hv, Bool.false_eq_true, if_false, List.mem_singleton]))]
+            simp only [specMatch, hv, Bool.false_eq_true, if_false, Option.map_some]
+            exact Agrees.ofSome
+          · rw [matchDatum_lit hv]
+            simp only [specMatch, hv, if_true]
+            cases d <;> simp only [Option.map_none] <;> try exact Agrees.ofNone
+            rename_i s l
+            by_cases hs : s = v
+            · simp only [hs, beq_self_eq_true, if_true, Option.map_some, Bindings.toSubst_nil,
+                List.append_nil]
+              exact Agrees.ofSome
+            · have : (s == v) = false := by simp [hs]
+              simp only [this, hs, if_false, Option.map_none]
+              exact Agrees.ofNone
+        · -- literal datum
+          rename_i a
+          rw [matchDatum_prim]
+          simp only [specMatch]
+          cases d <;> simp only [Option.map_none] <;> try exact Agrees.ofNone
+          rename_i b l
+          by_cases hs : a = b
+          · simp only [hs, beq_self_eq_true, if_true, Option.map_some, Bindings.toSubst_nil,
+              List.append_nil]
+            exact Agrees.ofSome
+          · have : (a == b) = false := by simp [hs]
+            simp only [this, hs, if_false, Option.map_none]
+            exact Agrees.ofNone
+      · -- list pattern
+        have hT := Pat.ok_okTail hok hl
+        obtain ⟨hs2, hs1, -⟩ := Pat.okTail_spine p hT
+        have hv := Pat.vars_spine lits p
+        simp only [hs2, List.append_nil] at hv
+        rw [specMatch_listy p hT]
+        cases hd : d.isListy
+        · rw [matchDatum_listy_atom hl hd, Datum.spine_atom hd]
+          exact Agrees.ofNone
+        · rw [matchDatum_listy hl hd, hs2]
+          have := ihS p.spine.1 d.spine.1 none σ hs1 (hv ▸ hnd) (hv ▸ hdis)
+          rcases this.cases with h | ⟨σ', h1, h2⟩ | ⟨h1, σ', h2⟩
+          · rw [h]; exact Agrees.fuel
+          · rw [h2]
+            cases hdt : d.spine.2 with
+            | none => simp only [h1]; exact Agrees.ofSome
+            | some t => exact Agrees.ofNone
+          · rw [h2]
+            cases hdt : d.spine.2 with
+            | none => simp only [h1]; exact Agrees.ofNone
+            | some t => exact Agrees.ofNone
+    · -- matchStream on the elements of a supported list or vector pattern
+      intro ps ds mm σ hok hnd hdis
+      cases ps with
+      | nil =>
+        cases ds with
+        | nil =>
+          simp only [matchStream_nil_nil, specMatchList, Option.map_some, Bindings.toSubst_nil,
+            List.append_nil]
+          exact Agrees.ofSome
+        | cons d ds => simp only [matchStream_nil_cons, specMatchList]; exact Agrees.ofNone
+      | cons p ps' =>
+        simp only [Pat.okList] at hok
+        simp only [Pat.varsList] at hnd hdis
+        by_cases he : Pat.isEllOnly ps' = true
+        · -- `p ...`
+          have := Pat.isEllOnly_iff.1 he
+          subst this
+          simp only [he, if_true, Bool.and_eq_true, Bool.not_eq_true'] at hok
+          obtain ⟨⟨hpok, hpef⟩, hplit⟩ := hok
+          have hp := Pat.ok_not_ellipsis hpok
+          have hvl : p.vars lits ++ Pat.varsList lits [Pat.ellipsis] = p.vars lits := by
+            simp [Pat.varsList, Pat.vars]
+          rw [hvl] at hnd hdis
+          simp only [specMatchList, he, if_true]
+          cases ds with
+          | nil =>
+            rw [matchStream_cons_nil_ne hp]
+            simp only [specRun, mapOpt, combine, Option.bind_some, Option.map_none]
+            exact Agrees.ofNone
+          | cons d ds' =>
+            rw [matchStream_step_ne hp]
+            rcases (ihD p d σ hpok hnd hdis).cases with h | ⟨σ', h1, h2⟩ | ⟨h1, σ', h2⟩
+            · rw [h]; exact Agrees.fuel
+            · rw [h2]
+              simp only [Option.map_eq_some_iff] at h1
+              obtain ⟨β, hβ, rfl⟩ := h1
+              simp only [nextMM_not_lit hplit, specRun_cons_some hβ, Option.map_map]
+              exact ihR p ds' σ β hpok hpef hnd (specMatch_keys hβ) (specMatch_nonEmpty hβ) hdis
+            · rw [h2]
+              simp only [Option.map_eq_none_iff] at h1
+              simp only [specRun_cons_none h1, Option.map_none]
+              exact Agrees.ofNone
+        · -- a plain element
+          simp only [he, Bool.false_eq_true, if_false, Bool.and_eq_true] at hok
+          obtain ⟨hpok, hpsok⟩ := hok
+          have hp := Pat.ok_not_ellipsis hpok
+          simp only [specMatchList, he, Bool.false_eq_true, if_false]
+          cases ds with
+          | nil =>
+            rw [matchStream_cons_nil_ne hp]
+            exact Agrees.ofNone
+          | cons d ds' =>
+            rw [matchStream_step_ne hp]
+            rw [List.nodup_append] at hnd
+            obtain ⟨hnd1, hnd2, hnd3⟩ := hnd
+            rcases (ihD p d σ hpok hnd1 (fun v hv => hdis v (by simp [hv]))).cases with
+              h | ⟨σ', h1, h2⟩ | ⟨h1, σ', h2⟩
+            · rw [h]; exact Agrees.fuel
+            · rw [h2]
+              simp only [Option.map_eq_some_iff] at h1
+              obtain ⟨β, hβ, rfl⟩ := h1
+              simp only [hβ]
+              have := ihS ps' ds' (nextMM lits p) (σ ++ β.toSubst) hpsok hnd2 (by
+                intro v hv
+                simp only [Subst.keys_append, Bindings.keys_toSubst, specMatch_keys hβ,
+                  List.mem_append, not_or]
+                exact ⟨hdis v (by simp [hv]), fun h => hnd3 v h v hv rfl⟩)
+              cases hps : specMatchList lits ps' ds' with
+              | none => simpa [hps] using this
+              | some β₂ => simpa [hps, List.append_assoc] using this
+            · rw [h2]
+              simp only [Option.map_eq_none_iff] at h1
+              simp only [h1, Option.map_none]
+              exact Agrees.ofNone
+    · -- the run under an ellipsis
+      intro q ds σ0 acc hq hef hnd hkeys hne hdis
+      cases ds with
+      | nil =>
+        rw [matchStream_ell_nil_some]
+        cases n with
+        | zero => rw [matchStream_zero]; exact Agrees.fuel
+        | succ m =>
+          simp only [matchStream_nil_nil, mapOpt, Option.map_some, List.foldl_nil]
+          exact Agrees.ofSome
+      | cons d ds' =>
+        cases n with
+        | zero => rw [matchStream_ell_one]; exact Agrees.fuel
+        | succ m =>
+          rw [matchStream_step_ell]
+          rcases (ihD q d [] hq hnd (fun v _ => by simp)).cases with
+            h | ⟨σ', h1, h2⟩ | ⟨h1, σ', h2⟩
+          · rw [h]; exact Agrees.fuel
+          · rw [h2]
+            simp only [Option.map_eq_some_iff, List.nil_append] at h1
+            obtain ⟨β, hβ, rfl⟩ := h1
+            have hkβ := specMatch_keys hβ
+            simp only []
+            rw [pushAll_toSubst (specMatch_single hβ hef) (hkβ ▸ hnd) hne (hkβ.trans hkeys.symm)
+              (hkeys ▸ hdis)]
+            simp only []
+            have := ihR q ds' σ0 (zipB acc β) hq hef hnd (by simpa using hkeys)
+              (zipB_nonEmpty hne) hdis
+            have hmo : mapOpt (specMatch lits q) (d :: ds') =
+                (mapOpt (specMatch lits q) ds').map (β :: ·) := by
+              simp only [mapOpt, hβ]; cases mapOpt (specMatch lits q) ds' <;> rfl
+            rw [hmo]
+            rcases this.cases with h | ⟨σ', h1, h2⟩ | ⟨h1, σ', h2⟩
+            · rw [h]; exact Agrees.fuel
+            · rw [h2]
+              simp only [Option.map_eq_some_iff] at h1
+              obtain ⟨βs, hβs, rfl⟩ := h1
+              simp only [hβs, Option.map_some, List.foldl_cons]
+              exact Agrees.ofSome
+            · rw [h2]
+              simp only [Option.map_eq_none_iff] at h1
+              simp only [h1, Option.map_none]
+              cases ds' with
+              | nil => simp [mapOpt] at h1
+              | cons d' ds'' => simp only [matchStream_nil_cons]; exact Agrees.ofNone
+          · rw [h2]
+            simp only [Option.map_eq_none_iff] at h1
+            simp only [mapOpt, h1, Option.map_none]
+            exact Agrees.ofNone
+
+/-- **the model matcher refines the declarative matcher** on supported patterns, starting from
+the empty table, for all literals and all data, with fuel `≥ p.size + d.size` -/
+theorem matchDatum_eq_spec {lits n p d} (hs : Supported lits p = true) (hf : matchBound p d ≤ n) :
+    match specMatch lits p d with
+    | some β => matchDatum n lits p d [] = .ok (true, β.toSubst)
+    | none => ∃ σ', matchDatum n lits p d [] = .ok (false, σ') := by
+  simp only [Supported, Bool.and_eq_true, decide_eq_true_eq] at hs
+  have := (match_spec_aux lits n).1 p d [] hs.1 hs.2 (fun v _ => by simp)
+  rcases this with h | h
+  · exact absurd h (matchDatum_fuel hf)
+  · cases hsp : specMatch lits p d with
+    | none => simpa [hsp] using h
+    | some β => simpa [hsp] using h
+
+/-! ## Lists of patterns -/
+
+@[simp] theorem Pat.spine_ofList (ps : List Pat) : (Pat.ofList ps).spine = (ps, none) := by
+  induction ps with
+  | nil => rfl
+  | cons p ps ih => simp [Pat.ofList, Pat.spine, ih]
+
+theorem Pat.isListy_ofList (ps : List Pat) : (Pat.ofList ps).isListy = true := by
+  cases ps <;> rfl
+
+/-- a supported list pattern against any datum: its elements against the elements of a proper
+list -/
+theorem specMatch_ofList {lits ps} (h : Pat.ok lits (Pat.ofList ps) = true) (d : Datum) :
+    specMatch lits (Pat.ofList ps) d =
+      match properElems d with
+      | some ds => specMatchList lits ps ds
+      | none => none := by
+  rw [specMatch_listy _ (Pat.ok_okTail h (Pat.isListy_ofList ps)), properElems_eq_spine]
+  cases d.spine.2 <;> simp
+
+theorem specMatchList_elementwise {lits ps} (h : ∀ p ∈ ps, p.isEllipsis = false) (ds : List Datum) :
+    specMatchList lits ps ds = elementwise (specMatch lits) ps ds := by
+  induction ps generalizing ds with
+  | nil => cases ds <;> rfl
+  | cons p ps ih =>
+    have he : Pat.isEllOnly ps = false := by
+      cases hps : Pat.isEllOnly ps
+      · rfl
+      · have := Pat.isEllOnly_iff.1 hps
+        subst this
+        have := h .ellipsis (by simp)
+        simp [Pat.isEllipsis] at this
+    simp only [specMatchList, he, Bool.false_eq_true, if_false]
+    cases ds with
+    | nil => rfl
+    | cons d ds => simp only [elementwise, ih (fun p hp => h p (by simp [hp]))]
+
+/-! small data for the non-vacuity examples -/
+namespace Ex
+def num (n : Int) : Datum := .prim (.int n) none
+def sy (s : String) : Datum := .sym s none
+def lst (xs : List Datum) : Datum := Datum.ofList none xs
+/-- a list pattern -/
+abbrev plist : List Pat → Pat := Pat.ofList
+end Ex
 
 end Ruschm.Macro
